@@ -66,6 +66,15 @@ class _Global(ast.NodeTransformer):
                 out.extend(st)
             elif st is not None:
                 out.append(st)
+        # G14: `return A if c else B` -> `if c: return A` ; `return B`
+        exp_: list[ast.stmt] = []
+        for st in out:
+            while isinstance(st, ast.Return) and isinstance(st.value, ast.IfExp):
+                ie = st.value
+                exp_.append(ast.copy_location(ast.If(test=ie.test, body=[ast.copy_location(ast.Return(value=ie.body), st)], orelse=[]), st))
+                st = ast.copy_location(ast.Return(value=ie.orelse), st)
+            exp_.append(st)
+        out = exp_
         # G7: `a, b = x, y` -> `a = x`; `b = y` (no target occurs on the right-hand side)
         split: list[ast.stmt] = []
         for st in out:
